@@ -15,15 +15,15 @@ import (
 
 // E2Job: build the tape of Hist, then judge every cut in Cuts (C06: rebuild; C16: Initialize over it).
 type E2Job struct {
-	Prop  string     `json:"prop"` // C06 | C16 | "tape" (only report the tape's shape)
-	Cfg   rig.Config `json:"cfg"`
-	Level string     `json:"level,omitempty"`
-	Hist  []ops.Op   `json:"hist"`
-	Cuts  []int64    `json:"cuts,omitempty"`
-	Policy  string   `json:"policy,omitempty"` // quick | all : the worker derives the cuts itself and takes shard Shard of NShards
-	Shard   int      `json:"shard,omitempty"`
-	NShards int      `json:"nshards,omitempty"`
-	Index string     `json:"index,omitempty"` // C16: absent | current | stale
+	Prop    string     `json:"prop"` // C06 | C16 | "tape" (only report the tape's shape)
+	Cfg     rig.Config `json:"cfg"`
+	Level   string     `json:"level,omitempty"`
+	Hist    []ops.Op   `json:"hist"`
+	Cuts    []int64    `json:"cuts,omitempty"`
+	Policy  string     `json:"policy,omitempty"` // quick | all : the worker derives the cuts itself and takes shard Shard of NShards
+	Shard   int        `json:"shard,omitempty"`
+	NShards int        `json:"nshards,omitempty"`
+	Index   string     `json:"index,omitempty"` // C16: absent | current | stale
 }
 
 type E2Res struct {
